@@ -55,7 +55,18 @@ def spaces(tier, seed):
                                          "bmd": [(1, 1), (6, 15), (12, 31)], "yy": range(100),
                                          "form": ["D Month YY", "MM/DD/YY"], "md": [(1, 1), (6, 15), (6, 16), (12, 31), (3, 1)],
                                          "pref": PREFS}))
+    from ..oddities import ODD
+    sp.append(Product("after-an-odd-string", {"odd": range(len(ODD)), "inner": range(len(INNER)), "pref": PREFS},
+                      note="two calls in one case: an odd string (lenient clock times, displaced or redundant fields, zones, other languages, garbage) with the same "
+                           "settings first, then an incomplete string judged as in its own sub-space"))
     return sp
+
+
+INNER = [("weekday-only", {"bday": 530, "tod": 1, "wd": 0, "abbr": False}), ("weekday-only", {"bday": 531, "tod": 1, "wd": 3, "abbr": False}),
+         ("month-only", {"bday": 530, "tod": 1, "mon": 3, "pdom": None}), ("month-only", {"bday": 530, "tod": 1, "mon": 11, "pdom": None}),
+         ("day-month", {"bday": 530, "tod": 1, "md": (3, 15), "order": "D Month"}), ("day-month", {"bday": 530, "tod": 1, "md": (12, 31), "order": "Month D"}),
+         ("time-only-utc", {"bday": 530, "tod": 1, "aware": False, "hm": 630}), ("time-only-utc", {"bday": 530, "tod": 1, "aware": False, "hm": 1380}),
+         ("two-digit-year", {"by": 2024, "bmd": (6, 15), "yy": 76, "form": "D Month YY", "md": (6, 16)})]
 
 
 def dst_zone_case(c, pref):
@@ -149,6 +160,19 @@ def base_of(c):
 
 
 def run_case(sub, c):
+    if sub == "after-an-odd-string":
+        from ..oddities import ODD
+        isub, ic = INNER[c["inner"]]
+        ic = dict(ic, pref=c["pref"])
+        st0 = {"RELATIVE_BASE": base_of(ic), "PREFER_DATES_FROM": c["pref"], "TIMEZONE": "UTC"}
+        if isub == "two-digit-year":
+            st0["DATE_ORDER"] = "MDY"
+        api.outcome_of(api.gdd, ODD[c["odd"]], ["en"], None, None, st0, None, False, False)
+        r = run_case(isub, ic)
+        if r is not None and r[2] is not None:
+            r[2]["cls"]["after_an_odd_string"] = True
+            r[2]["detail"]["first_call"] = {"string": ODD[c["odd"]], "settings": st0}
+        return r
     if sub == "time-only-dst-zone-both-seasons":
         return dst_zone_case(c, c["pref"])
     b = base_of(c)
